@@ -57,6 +57,16 @@ func (fx *FuncExec) calleeName(c *ssa.CallCommon, st *State) (name string, fn *s
 		if a, ok := u.X.(*ssa.Alloc); ok && a.Comment != "" {
 			n = "dynamic:" + a.Comment
 		}
+		if g, ok := u.X.(*ssa.Global); ok {
+			n = "dynamic:" + g.Name() // a package-level function variable
+		}
+	}
+	if lk, ok := c.Value.(*ssa.Lookup); ok {
+		if u, ok := lk.X.(*ssa.UnOp); ok {
+			if g, ok := u.X.(*ssa.Global); ok {
+				n = "dynamic:" + g.Name() + "[]" // a function taken from a package-level map
+			}
+		}
 	}
 	return n, nil, nil, nil
 }
